@@ -12,6 +12,7 @@ import SqlgrepModel.Drivers.Pipeline
 import SqlgrepModel.Drivers.JsonText
 import SqlgrepModel.Drivers.F64Parse
 import SqlgrepModel.Drivers.FactCheck
+import SqlgrepModel.Drivers.JsonDocD
 /- Line protocol driver: `<kind> <payload…>` per line in, one answer line out. -/
 open Sqlgrep
 
@@ -46,6 +47,7 @@ def dispatch (line : String) : String :=
     | "e2e" => Drivers.Pipeline.handle args
     | "jsontext" => Drivers.JsonText.handle args
     | "f64parse" => Drivers.F64Parse.handle args
+    | "jsondoc" => Drivers.JsonDocD.handle args
     | _ => "unknown-kind"
   | _ => "bad-line"
 
